@@ -58,9 +58,9 @@ CHECKS = {
  "C17": (E2, "exploration", "exhaustive enumeration of client wrapper stacks over four base channels",
          "all 34,952 configurations of depth 0..3 x per-layer interceptor behaviour x base {stub, real grpc.ClientConn on bufconn, in-process, HTTP} x outcome",
          "none beyond the enumeration bounds", "6/C17"),
- "C18": (E2, "exploration", "bounded-exhaustive enumeration of messages x adapters x pairings with an in-place-mutation disjointness oracle",
-         "54 messages over 14 types (each also dynamic) x 4 adapters x Clone / Copy into empty and pre-populated destinations x type pairings; the checker first calibrates its own mutator and reference functions",
-         "protobuf-go reflection is trusted to reach all mutable memory", "6/C18"),
+ "C18": (E1, "model_checking", "bounded-exhaustive enumeration of messages x adapters x pairings with an in-place-mutation disjointness oracle (E2 part) + stateless DFS over all schedules of concurrent use of the shared adapters on the instrumented sources, package-level synchronisation state reset per execution (E1 part)",
+         "E2 part: 54 messages over 14 types (each also dynamic) x 4 adapters x Clone / Copy into empty and pre-populated destinations x type pairings; the checker first calibrates its own mutator and reference functions; E1 part: every unordered pair (thorough: two operations per task, three tasks) of adapter x Clone/Copy x {generated, dynamic} x {Message, HttpTrailer} operations run concurrently, each result judged on its own",
+         "protobuf-go reflection is trusted to reach all mutable memory; the adapters of the unchanged tree contain no synchronisation operation, so the E1 part has one schedule per scenario there (unsynchronised sharing is the business of the auxiliary race pass)", "6/C18"),
  "C19": (E2, "exploration", "bounded-exhaustive enumeration of synthetic CodeGeneratorRequests, AST + go/types oracle, byte-exact regeneration",
          "every method-kind sequence up to length 3 (thorough: options, type sources, service pairs, length 5/6 masks; 76k requests) fed to the plugin built from the tree; emitted files type-checked against a synthesised companion and inspected by AST; checked-in stubs regenerated",
          "go/types and the gc export data of the tree's dependencies are trusted", "6/C19"),
